@@ -91,3 +91,28 @@ type OnAlloc struct {
 	Val   *Expr
 	Pkg   *packages.Package
 }
+
+// importByName resolves a package qualifier used in a contract of package pkg: first the import
+// aliases of that package's contract files (zz_verif_*.go), then the package names of its imports.
+func (w *World) importByName(pkg *packages.Package, name string) *packages.Package {
+	if pkg == nil {
+		return nil
+	}
+	if m := w.DB.FileImports[pkg.PkgPath]; m != nil {
+		if path, ok := m[name]; ok {
+			if ip := pkg.Imports[path]; ip != nil {
+				return ip
+			}
+		}
+	}
+	var found *packages.Package
+	for _, imp := range pkg.Imports {
+		if imp.Name == name || (imp.Types != nil && imp.Types.Name() == name) {
+			if found != nil && found != imp {
+				return nil // ambiguous: two imports share the package name; use an alias in the contract file
+			}
+			found = imp
+		}
+	}
+	return found
+}
